@@ -18,8 +18,8 @@ import (
 func init() {
 	Register(&Prop{
 		ID:   "C19",
-		Expl: "A static lockset check, not a race-detector run. A frozen guarded-by table (confirmed by reading; one reason per entry) names the mutex that protects each shared field of the policy, the chain/payment watchers, the swap service, the messenger manager, the peer-sync poller and the per-swap machine (SwapData.*, Previous, retries <- SwapStateMachine.mutex; Current <- stateMutex for writes, stateMutex or mutex for reads). (R1) for EVERY read and write of a tabled field in every production function the guard is in the held-lock set: held locally (flow-sensitive, c18 engine, including the net effect of lock wrappers and release helpers) or by all synchronous callers and not released again by the function itself before the access (intersection over the VTA call graph; go statements and library callbacks start with the empty set). Where some callers hold the guard and others do not, the obligation is moved to the callers that do not (e.g. Recover running actions). An access is exempt only when the object is provably private: allocated in the function (or returned fresh by a callee / the swap store) and not yet stored into shared memory, handed to a goroutine or captured (constructors, pre-publication code); provenance follows parameters up the call graph. Reads are only checked for fields that have a writer after publication. Reference escape: when a guarded field holds a map, slice or pointer, every use of the loaded reference (range, lookup, update, len, index, dereference; followed through locals, phis, closures, parameters and results) must also hold the guard, unless it cannot race (element reads of a slice nobody writes in place - a header copy is then a snapshot -, reads of a map nobody mutates, reads of struct fields without a writer after publication). (R2) the functions that store to SwapData fields are enumerated and each is classified (constructor, under the mutex, caller holds it, or violating). The quantifier is over all access sites and all call chains, i.e. all interleavings of the concurrent entry points.",
-		NotD: "Races on fields outside the table (callback fields written once at start-up are deliberately not in it); happens-before through channels, WaitGroups or goroutine creation other than publication of a fresh object; accesses by reflection (json.Marshal of a live machine in Store.UpdateData, fmt verbs); read-side races of code outside package swap on live SwapData (RPC pretty-printers; listed as info, not decided); functions without any production caller that get the object as parameter (info). Lock classes merge instances: holding the mutex of another object of the same class counts as guarded.",
+		Expl: "A static lockset check, not a race-detector run. A frozen guarded-by table (confirmed by reading; one reason per entry) names the mutex that protects each shared field of the policy, the chain/payment watchers, the swap service, the messenger manager, the peer-sync poller and the per-swap machine (SwapData.*, Previous, retries <- SwapStateMachine.mutex; Current <- stateMutex for writes, stateMutex or mutex for reads). (R1) for EVERY read and write of a tabled field in every production function the guard is in the held-lock set: held locally (flow-sensitive, c18 engine, including the net effect of lock wrappers and release helpers) or by all synchronous callers and not released again by the function itself before the access (intersection over the VTA call graph; go statements and library callbacks start with the empty set). Where some callers hold the guard and others do not, the obligation is moved to the callers that do not (e.g. Recover running actions). An access is exempt only when the object is provably private: allocated in the function (or returned fresh by a callee / the swap store) and not yet stored into shared memory, handed to a goroutine or captured (constructors, pre-publication code); provenance follows parameters up the call graph. Reads are only checked for fields that have a writer after publication. Reference escape: when a guarded field holds a map, slice or pointer, every use of the loaded reference (range, lookup, update, len, index, dereference; followed through locals, phis, closures, parameters and results) must also hold the guard, unless it cannot race (element reads of a slice nobody writes in place - a header copy is then a snapshot -, reads of a map nobody mutates, reads of struct fields without a writer after publication). Stale write-back: a store to a guarded field must not write a value computed from a copy of the same field taken in an earlier critical section (guard released in between) unless it also derives from a load in the section of the store (lost update; exposed as c19StaleWriteBacks for C07). (R3) unguarded shared object, for state that has no lock and therefore no table row: a struct field, map entry or slice element of an object reachable from a long-lived object (loaded from a struct field or passed down from such a load) that is written after publication with no lock held at all, by code reachable from two or more goroutine roots (go statements, library call-backs, entry points without production caller; program start-up in main/init is not a root), is a violation; writes on fresh objects (constructors, per-call copies) and fields of sync/atomic/channel type are exempt. (R2) the functions that store to SwapData fields are enumerated and each is classified (constructor, under the mutex, caller holds it, or violating). The quantifier is over all access sites and all call chains, i.e. all interleavings of the concurrent entry points.",
+		NotD: "R3 only decides writes made with NO lock held (a wrong or inconsistent lock on untabled state is not decided), counts distinct roots (one root running concurrently with itself - a per-request handler - is not counted) and trusts that start-up code in main/init finishes its writes before it starts goroutines. Races on fields outside the table other than those R3 finds (callback fields written once at start-up are deliberately not in it); happens-before through channels, WaitGroups or goroutine creation other than publication of a fresh object; accesses by reflection (json.Marshal of a live machine in Store.UpdateData, fmt verbs); read-side races of code outside package swap on live SwapData (RPC pretty-printers; listed as info, not decided); functions without any production caller that get the object as parameter (info). Lock classes merge instances: holding the mutex of another object of the same class counts as guarded.",
 		Run:  runC19,
 	})
 }
@@ -168,21 +168,21 @@ type c19An struct {
 	findings    map[string]*c19Finding
 	fieldStores map[string][]*ssa.Store
 	fieldLive   map[string]int
+	rootMemo    map[*ssa.Function][]string
+	goTarget    map[*ssa.Function]bool
 }
 
 func runC19(c *an.Check) {
 	c.Rule("C19.R1", "every read/write of a field of the guarded-by table happens with its guard held locally or by all synchronous callers, unless the object is provably unpublished; one obligation per (function, field or callee, guard) where the lock is missing, one discharged obligation per (type.field)")
 	c.Rule("C19.R1ref", "reference escape (part of R1): a map, slice or pointer loaded from a guarded field is only used (ranged over, indexed, looked up, updated, dereferenced) with the guard held - following the value through locals, phis, closures, parameters and results - unless the use cannot race: element reads of a slice that nobody writes in place (a header copy is a snapshot), reads of a map nobody mutates, reads of struct fields that have no writer after publication")
+	c.Rule("C19.R3", "unguarded shared object: a struct, map or slice that is reachable from a long-lived object (loaded from a struct field, or passed down from such a load) and is written after publication by code that two or more goroutine roots (go statements, library call-backs, entry points without production caller) can reach must be written with a lock held; a write with no lock held at all (not locally, not by every caller) is a violation - writes on a fresh object (constructor, per-call copy) are exempt")
 	c.Rule("C19.R2", "every function that stores to a SwapData field is a constructor (fresh object), holds the per-swap mutex, or is only run by callers that hold it")
 	w := c.W
 	e := c18Get(w)
 	if !e.reportEngine(c, "C19.R1") {
 		return
 	}
-	a := &c19An{c: c, w: w, e: e, byField: map[*types.Named]map[string]*c19Guard{},
-		pubMemo: map[string]int{}, retMemo: map[string][]c19Origin{}, retBusy: map[string]bool{},
-		sharedMemo: map[string][]c19Ev{}, sharedBusy: map[string]bool{}, needMemo: map[string][]c19Blame{}, needBusy: map[string]bool{}, alongMemo: map[string]bool{}, alongBusy: map[string]bool{},
-		liveWritten: map[string]bool{}, findings: map[string]*c19Finding{}}
+	a := c19New(c, e)
 	if !a.resolveTable() {
 		return
 	}
@@ -300,6 +300,8 @@ func runC19(c *an.Check) {
 	}
 
 	a.ruleR2(accs)
+	a.ruleR3()
+	a.staleWriteBacks("C19.R1", accs, nil)
 }
 
 // unsureFn: the engine could not fully interpret the lock operations of fn.
@@ -744,6 +746,25 @@ func (a *c19An) trace(fn *ssa.Function, v ssa.Value) []c19Origin {
 				if owner := an.NamedOf(ad.X.Type()); owner == a.ssm && an.FieldName(ad.X.Type(), ad.Field) == c19OwnerType+"."+c19OwnerField {
 					rec(ad.X, depth+1) // the machine owns its Data
 					return
+				}
+				if local, ok := ad.X.(*ssa.Alloc); ok {
+					// a field of a local struct variable: what was stored into that field
+					n := 0
+					if local.Referrers() != nil {
+						for _, r := range *local.Referrers() {
+							if fa2, ok := r.(*ssa.FieldAddr); ok && fa2.Field == ad.Field && fa2.Referrers() != nil {
+								for _, rr := range *fa2.Referrers() {
+									if st, ok := rr.(*ssa.Store); ok && st.Addr == fa2 {
+										n++
+										rec(st.Val, depth+1)
+									}
+								}
+							}
+						}
+					}
+					if n > 0 {
+						return
+					}
 				}
 				add(c19Origin{kind: c19Shared, val: x, desc: "loaded from field " + an.FieldName(ad.X.Type(), ad.Field)})
 			case *ssa.Alloc:
@@ -1892,4 +1913,451 @@ func (a *c19An) refEscape(accs []*c19Access) {
 			c.OK("C19.R1ref", f+" reference", "-", fmt.Sprintf("%d use(s) of the loaded reference, all with the guard held or unable to race (snapshot / no in-place writer)", cnt[0]))
 		}
 	}
+}
+
+// ---------------------------------------------------------------------------
+// R3: unguarded shared object (no row in the guarded-by table, no lock at all)
+// ---------------------------------------------------------------------------
+
+// c19SyncField: fields whose own type synchronises (sync.*, sync/atomic.*, channels).
+func c19SyncType(t types.Type) bool {
+	if _, ok := t.Underlying().(*types.Chan); ok {
+		return true
+	}
+	n := an.NamedOf(t)
+	if n == nil || n.Obj().Pkg() == nil {
+		return false
+	}
+	p := n.Obj().Pkg().Path()
+	return p == "sync" || p == "sync/atomic"
+}
+
+type c19R3Write struct {
+	fn    *ssa.Function
+	instr ssa.Instruction
+	field string // "T.f" written, or "T.f[...]" for a container held in T.f
+	kind  string
+	held  c18Set
+	ev    []c19Ev
+}
+
+// rootsOf lists the goroutine roots from which fn is reachable over synchronous calls.
+func (a *c19An) rootsOf(fn *ssa.Function) []string {
+	if a.rootMemo == nil {
+		a.rootMemo = map[*ssa.Function][]string{}
+		a.goTarget = map[*ssa.Function]bool{}
+		for _, f := range a.e.funcs {
+			for _, s := range a.e.fi[f].sites {
+				if s.isGo || s.pseudo {
+					for _, g := range s.callees {
+						a.goTarget[g] = true
+					}
+				}
+			}
+		}
+	}
+	if r, ok := a.rootMemo[fn]; ok {
+		return r
+	}
+	roots := map[string]bool{}
+	seen := map[*ssa.Function]bool{fn: true}
+	work := []*ssa.Function{fn}
+	for len(work) > 0 {
+		f := work[len(work)-1]
+		work = work[:len(work)-1]
+		if a.goTarget[f] {
+			roots["goroutine/call-back "+a.w.FuncName(f)] = true
+		}
+		syncCallers := 0
+		for _, s := range a.e.callers[f] {
+			if s.isGo || s.pseudo {
+				continue
+			}
+			syncCallers++
+			if !seen[s.fn] {
+				seen[s.fn] = true
+				work = append(work, s.fn)
+			}
+		}
+		if syncCallers == 0 && !a.goTarget[f] {
+			if f.Name() == "main" || f.Name() == "init" || strings.HasPrefix(f.Name(), "init#") {
+				continue // program start-up: runs before the goroutines it starts; two mains are two programs
+			}
+			roots["entry point "+a.w.FuncName(f)] = true
+		}
+	}
+	out := sortedKeys(roots)
+	a.rootMemo[fn] = out
+	return out
+}
+
+func (a *c19An) heldAtAll(fn *ssa.Function, in ssa.Instruction) c18Set {
+	must, _ := a.e.HeldAt(in)
+	rel := a.e.ReleasedAt(in)
+	held := must.clone()
+	for k := range a.entryMu[fn] {
+		if !rel[k] {
+			held[k] = true
+		}
+	}
+	return held
+}
+
+func (a *c19An) ruleR3() {
+	c, w := a.c, a.w
+	inModule := func(n *types.Named) bool {
+		if n == nil || n.Obj().Pkg() == nil {
+			return false
+		}
+		rel, ok := w.Rel(n.Obj().Pkg().Path())
+		return ok && !an.IsTestSupport(rel)
+	}
+	definite := func(ev []c19Ev) []c19Ev {
+		var out []c19Ev
+		for _, e := range ev {
+			if !e.unsure && !e.entry {
+				out = append(out, e)
+			}
+		}
+		return out
+	}
+	var writes []*c19R3Write
+	nStores := 0
+	for _, fn := range a.e.funcs {
+		fi := a.e.fi[fn]
+		for _, b := range fn.Blocks {
+			if fi.in[b] == nil || !fi.in[b].reached {
+				continue
+			}
+			for _, in := range b.Instrs {
+				var base ssa.Value
+				field, kind := "", ""
+				switch x := in.(type) {
+				case *ssa.Store:
+					switch ad := x.Addr.(type) {
+					case *ssa.FieldAddr:
+						owner := an.NamedOf(ad.X.Type())
+						if !inModule(owner) || a.byField[owner] != nil {
+							continue
+						}
+						st, _ := owner.Underlying().(*types.Struct)
+						if st == nil || ad.Field >= st.NumFields() || c19SyncType(st.Field(ad.Field).Type()) {
+							continue
+						}
+						if _, fresh := ad.X.(*ssa.Alloc); fresh {
+							continue
+						}
+						base, field, kind = ad.X, an.FieldName(ad.X.Type(), ad.Field), "writes"
+					case *ssa.IndexAddr:
+						if _, isSlice := ad.X.Type().Underlying().(*types.Slice); !isSlice {
+							continue
+						}
+						base, kind = ad.X, "writes an element of the slice held in"
+					default:
+						continue
+					}
+				case *ssa.MapUpdate:
+					base, kind = x.Map, "updates the map held in"
+				default:
+					continue
+				}
+				nStores++
+				ev := definite(a.sharedAt(fn, in, base))
+				if len(ev) == 0 {
+					continue
+				}
+				if field == "" {
+					// name the container by the field it was loaded from
+					for _, o := range a.trace(fn, base) {
+						if ld, ok := o.val.(*ssa.UnOp); ok && o.kind == c19Shared {
+							if fa, ok := ld.X.(*ssa.FieldAddr); ok {
+								if owner := an.NamedOf(fa.X.Type()); inModule(owner) && a.byField[owner] == nil {
+									field = an.FieldName(fa.X.Type(), fa.Field)
+								} else if owner != nil {
+									field = "-" // a tabled or foreign holder: not this rule's business
+								}
+							}
+						}
+					}
+					if field == "" || field == "-" {
+						continue
+					}
+				}
+				writes = append(writes, &c19R3Write{fn: fn, instr: in, field: field, kind: kind, held: a.heldAtAll(fn, in), ev: ev})
+			}
+		}
+	}
+	c.Extra["r3_stores_examined"] = nStores
+	c.Extra["r3_post_publication_writes"] = len(writes)
+	c.AtLeast("C19.R3", "stores to struct fields, map entries and slice elements examined", nStores, 200)
+	byField := map[string][]*c19R3Write{}
+	for _, wr := range writes {
+		byField[wr.field] = append(byField[wr.field], wr)
+	}
+	fields := make([]string, 0, len(byField))
+	for f := range byField {
+		fields = append(fields, f)
+	}
+	sort.Strings(fields)
+	for _, f := range fields {
+		ws := byField[f]
+		allRoots := map[string]bool{}
+		for _, wr := range ws {
+			for _, r := range a.rootsOf(wr.fn) {
+				allRoots[r] = true
+			}
+		}
+		bad := false
+		for _, wr := range ws {
+			if len(wr.held) > 0 {
+				continue
+			}
+			roots := a.rootsOf(wr.fn)
+			cons := fmt.Sprintf("%s %s %s without any lock", w.FuncName(wr.fn), wr.kind, f)
+			whys := []string{}
+			for _, e := range wr.ev {
+				whys = append(whys, e.why)
+			}
+			sort.Strings(whys)
+			switch {
+			case a.unsureFn(wr.fn):
+				c.Unknown("C19.R3", cons, w.Pos(wr.instr.Pos()), "the lock state of this function contains an unsupported shape")
+				bad = true
+			case len(roots) >= 2:
+				bad = true
+				c.Bad("C19.R3", cons, w.Pos(wr.instr.Pos()),
+					fmt.Sprintf("post-publication write of a shared object with no lock held (not locally, not by every caller), reachable from %d goroutine roots (e.g. %s): two of them can execute this store, and the reads of the same object, at the same time; the object is shared: %s",
+						len(roots), strings.Join(c19Limit(roots, 3), "; "), strings.Join(c19Limit(whys, 2), " / ")))
+			}
+		}
+		if !bad {
+			c.OK("C19.R3", f, "-", fmt.Sprintf("%d post-publication write(s): each holds a lock or is reachable from a single goroutine root only (%d root(s) in total)", len(ws), len(allRoots)))
+		}
+	}
+}
+
+func c19New(c *an.Check, e *c18Engine) *c19An {
+	return &c19An{c: c, w: c.W, e: e, byField: map[*types.Named]map[string]*c19Guard{},
+		pubMemo: map[string]int{}, retMemo: map[string][]c19Origin{}, retBusy: map[string]bool{},
+		sharedMemo: map[string][]c19Ev{}, sharedBusy: map[string]bool{}, needMemo: map[string][]c19Blame{}, needBusy: map[string]bool{}, alongMemo: map[string]bool{}, alongBusy: map[string]bool{},
+		liveWritten: map[string]bool{}, findings: map[string]*c19Finding{}}
+}
+
+// ---------------------------------------------------------------------------
+// stale write-back (lost update)
+// ---------------------------------------------------------------------------
+
+// c19StaleWriteBacks reports, under the given rule id, every store to a
+// guarded field whose value was computed from a copy of the same field taken
+// in an earlier critical section (the guard was released in between), for the
+// functions of the given packages (all production packages when none given).
+// Exposed for c07.go (watcher packages: txwatcher, electrum, lwk, lnd).
+func c19StaleWriteBacks(c *an.Check, rule string, pkgs ...string) {
+	e := c18Get(c.W)
+	if !e.reportEngine(c, rule) {
+		return
+	}
+	a := c19New(c, e)
+	if !a.resolveTable() {
+		return
+	}
+	a.entrySets()
+	keep := map[string]bool{}
+	for _, p := range pkgs {
+		keep[p] = true
+	}
+	if len(pkgs) == 0 {
+		keep = nil
+	}
+	a.staleWriteBacks(rule, a.accesses(), keep)
+}
+
+type c19StaleOrigin struct {
+	instr ssa.Instruction // where the old contents entered the function: the load, or the call that returned a copy
+	inner bool            // the load happened inside a callee (its critical section ended when it returned)
+	desc  string
+}
+
+// derivedFrom lists where the value v (in fn) takes contents of field from.
+func (a *c19An) derivedFrom(fn *ssa.Function, v ssa.Value, owner *types.Named, fname string, depth int, seen map[ssa.Value]bool) []c19StaleOrigin {
+	if v == nil || seen[v] || depth > 8 {
+		return nil
+	}
+	seen[v] = true
+	var out []c19StaleOrigin
+	rec := func(x ssa.Value) { out = append(out, a.derivedFrom(fn, x, owner, fname, depth+1, seen)...) }
+	switch x := v.(type) {
+	case *ssa.UnOp:
+		if x.Op != token.MUL {
+			return nil
+		}
+		switch ad := x.X.(type) {
+		case *ssa.FieldAddr:
+			if an.NamedOf(ad.X.Type()) == owner && an.FieldName(ad.X.Type(), ad.Field) == owner.Obj().Name()+"."+fname {
+				return []c19StaleOrigin{{instr: x, desc: "loaded"}}
+			}
+		case *ssa.Alloc:
+			if ad.Referrers() != nil {
+				for _, r := range *ad.Referrers() {
+					if st, ok := r.(*ssa.Store); ok && st.Addr == ad {
+						rec(st.Val)
+					}
+				}
+			}
+		}
+	case *ssa.Phi:
+		for _, ed := range x.Edges {
+			rec(ed)
+		}
+	case *ssa.Slice:
+		rec(x.X)
+	case *ssa.ChangeType:
+		rec(x.X)
+	case *ssa.Extract:
+		rec(x.Tuple)
+	case *ssa.MakeSlice, *ssa.MakeMap:
+		// filled by copy(dst, src) / element stores / map updates from a derived value
+		if refs := v.Referrers(); refs != nil {
+			for _, r := range *refs {
+				switch y := r.(type) {
+				case *ssa.Call:
+					if b, ok := y.Call.Value.(*ssa.Builtin); ok && b.Name() == "copy" && len(y.Call.Args) == 2 && y.Call.Args[0] == v {
+						rec(y.Call.Args[1])
+					}
+				case *ssa.Slice:
+					// dst[:n] used as copy target
+					if y.X == v && y.Referrers() != nil {
+						for _, rr := range *y.Referrers() {
+							if cl, ok := rr.(*ssa.Call); ok {
+								if b, ok := cl.Call.Value.(*ssa.Builtin); ok && b.Name() == "copy" && cl.Call.Args[0] == y {
+									rec(cl.Call.Args[1])
+								}
+							}
+						}
+					}
+				}
+			}
+		}
+	case *ssa.Call:
+		if b, ok := x.Call.Value.(*ssa.Builtin); ok {
+			if b.Name() == "append" {
+				for _, av := range x.Call.Args {
+					rec(av)
+				}
+			}
+			return out
+		}
+		// a result computed from a derived argument ...
+		for _, av := range x.Call.Args {
+			if c19IsRefType(av.Type()) {
+				rec(av)
+			}
+		}
+		// ... or a callee that returns (a copy of) the field it loaded itself
+		for _, g := range a.calleesOf(x) {
+			for _, r := range an.Returns(g) {
+				for _, rv := range r.Results {
+					if !c19IsRefType(rv.Type()) {
+						continue
+					}
+					if in := a.derivedFrom(g, rv, owner, fname, depth+1, map[ssa.Value]bool{}); len(in) > 0 {
+						out = append(out, c19StaleOrigin{instr: x, inner: true, desc: "returned by " + a.w.FuncName(g) + ", which copied it from the field"})
+					}
+				}
+			}
+		}
+	}
+	return out
+}
+
+// releasedBetween: on some path from o to s the guard is not held.
+func (a *c19An) releasedBetween(fn *ssa.Function, o, s ssa.Instruction, n c19Need) bool {
+	fromO := an.ReachBlocks(o.Block().Succs, nil, nil)
+	fromO[o.Block()] = true
+	for _, b := range fn.Blocks {
+		if !fromO[b] {
+			continue
+		}
+		toS := b == s.Block() || an.ReachBlocks(b.Succs, nil, nil)[s.Block()]
+		if !toS {
+			continue
+		}
+		for _, in := range b.Instrs {
+			if b == o.Block() && an.InstrIndex(in) <= an.InstrIndex(o) && !fromOLoop(fromO, o) {
+				continue
+			}
+			if b == s.Block() && an.InstrIndex(in) >= an.InstrIndex(s) && b != o.Block() {
+				continue
+			}
+			if _, isPhi := in.(*ssa.Phi); isPhi {
+				continue
+			}
+			if !a.satisfied(fn, in, n) {
+				return true
+			}
+		}
+	}
+	return false
+}
+
+func fromOLoop(reach map[*ssa.BasicBlock]bool, o ssa.Instruction) bool {
+	return an.ReachBlocks(o.Block().Succs, nil, nil)[o.Block()]
+}
+
+func (a *c19An) staleWriteBacks(rule string, accs []*c19Access, keep map[string]bool) {
+	c, w := a.c, a.w
+	c.Rule(rule+"stale", "stale write-back (lost update): a store to a guarded field must not write a value computed from a copy of the same field taken in an earlier critical section of the same function (the guard was released between the load and the store), unless the stored value also derives from a load of the field made in the section of the store")
+	n := 0
+	for _, x := range accs {
+		st, ok := x.instr.(*ssa.Store)
+		if !ok || !x.write || strings.HasSuffix(x.field, ".*") || !c19IsRefType(st.Val.Type()) {
+			continue
+		}
+		if keep != nil {
+			if rel, _ := a.e.rel(x.fn); !keep[rel] {
+				continue
+			}
+		}
+		fname := strings.TrimPrefix(x.field, x.owner.Obj().Name()+".")
+		need := c19Need{alts: x.g.readAny, label: strings.Join(x.g.readAny, " or ")}
+		if !a.satisfied(x.fn, st, need) {
+			continue // an unguarded store is the table rule's business
+		}
+		n++
+		origins := a.derivedFrom(x.fn, st.Val, x.owner, fname, 0, map[ssa.Value]bool{})
+		cons := fmt.Sprintf("%s stores %s", w.FuncName(x.fn), x.field)
+		if len(origins) == 0 {
+			c.OK(rule+"stale", cons, w.Pos(st.Pos()), "the stored value is not computed from the field")
+			continue
+		}
+		fresh, stale := false, []c19StaleOrigin{}
+		for _, o := range origins {
+			switch {
+			case o.inner && !a.satisfied(x.fn, o.instr, need):
+				stale = append(stale, o) // the callee's critical section ended before this function took the guard
+			case a.releasedBetween(x.fn, o.instr, st, need):
+				stale = append(stale, o)
+			default:
+				fresh = true
+			}
+		}
+		switch {
+		case len(stale) == 0 || fresh:
+			c.OK(rule+"stale", cons, w.Pos(st.Pos()), "the stored value derives from a load of the field in the same critical section")
+		case a.unsureFn(x.fn):
+			c.Unknown(rule, cons+" from a stale copy", w.Pos(st.Pos()), "the lock state of this function contains an unsupported shape")
+		default:
+			o := stale[0]
+			if len(a.sharedAt(x.fn, st, x.base)) == 0 {
+				c.OK(rule+"stale", cons, w.Pos(st.Pos()), "the object is not published yet")
+				continue
+			}
+			c.Bad(rule, cons+" from a stale copy", w.Pos(st.Pos()),
+				fmt.Sprintf("lost update: the value written to %s is computed from a copy of %s taken at %s (%s) in an earlier critical section - %s was released in between - and not from a fresh load, so every change made to the field in the meantime (e.g. a Register while the callbacks ran) is discarded",
+					x.field, x.field, w.Pos(o.instr.Pos()), o.desc, need.label),
+				fmt.Sprintf("%s [%s] old contents of %s enter here (%s)", w.FuncName(x.fn), w.Pos(o.instr.Pos()), x.field, o.desc),
+				fmt.Sprintf("%s [%s] stores the value computed from them", w.FuncName(x.fn), w.Pos(st.Pos())))
+		}
+	}
+	c.AtLeast(rule+"stale", "guarded stores of a map/slice/pointer examined", n, 3)
 }
